@@ -19,8 +19,12 @@ func verifDial(network, addr string) (net.Conn, error, bool) {
 	return conn, err, true
 }
 
-// VerifYield, when set, is called at the named points of Server.Close and
-// Server.Shutdown between the test of s.done and its closing.
+// VerifYield, when set, is called at named points where another goroutine
+// could get in between two steps that no blocking operation separates: in
+// front of the test-and-close of Server.done in Close and Shutdown, and in the
+// command loop in front of Conn.reset, of the opening of a chunked transfer,
+// of its LAST handling, and after each command. No lock is held at any of
+// them.
 var VerifYield func(point string)
 
 func verifYield(point string) {
